@@ -28,7 +28,8 @@ LEVEL_TEXT = ("Generated-input search over constructed stopping games (rewards o
               "in scope is compared with the exact max-min total reward of the conditioned game within threshold x "
               "(T_c+1). Boards (1x1..4x4, three variants) and the repository's example files are checked in "
               "fixed-point form with the harness's own reward operator. Exploration: infinite domain, exact oracle "
-              "on what is generated.")
+              "on what is generated."
+              " Added while validating sensitivity: planted tiny positive reach values (1e-9..1e-6), slowly escaping rewarded loops (10^3..4x10^5 sweeps), medium-size games (20-300 states) against the harness's own tight iteration on the rebuilt conditioned game, exact duplicate edges, duplicate action labels, zero-probability transitions, rewards to 2.5e7.")
 LEVEL_NOTE = ("Trusted: harness/exact.py strategy iteration and conditioned_game(); tolerance argument of DESIGN 2.4 "
               "(two-sided: the reward iteration is not monotone once emptied states start at their own reward). "
               f"Cases whose conditioned game has T_c > {T_MAX_COND} are counted inconclusive.")
